@@ -1362,7 +1362,7 @@ impl<Word, Buf> Cursor<Word, Buf> {
         Buf: AsMut<[Word]>,
     {
         self.buf.as_mut().reverse();
-        self.pos = self.buf.as_mut().len() - self.pos;
+        self.pos = self.buf.as_mut().len().saturating_sub(self.pos);
         Reverse(self)
     }
 }
@@ -1403,7 +1403,7 @@ impl<Word, Buf: AsMut<[Word]>> WriteWords<Word> for Cursor<Word, Buf> {
 impl<Word, Buf: AsMut<[Word]> + AsRef<[Word]>> BoundedWriteWords<Word> for Cursor<Word, Buf> {
     #[inline(always)]
     fn space_left(&self) -> usize {
-        self.buf.as_ref().len() - self.pos
+        self.buf.as_ref().len().saturating_sub(self.pos)
     }
 }
 
@@ -1416,13 +1416,10 @@ impl<Word, Buf: SafeBuf<Word> + AsMut<[Word]>> WriteWords<Word> for Reverse<Curs
             Err(BoundedWriteError::OutOfSpace)
         } else {
             self.0.pos -= 1;
-            unsafe {
-                // SAFETY: We maintain the invariant `self.0.pos <= self.0.buf.as_mut().len()`
-                // and we just decreased `self.0.pos` (and made sure that didn't wrap around),
-                // so we now have `self.0.pos < self.0.buf.as_mut().len()`.
-                *self.0.buf.as_mut().get_unchecked_mut(self.0.pos) = word;
-                Ok(())
-            }
+            // We use a checked access here because the invariant `pos <= buf.len()` can be
+            // broken from safe code by shrinking the buffer through `Cursor::buf_mut`.
+            self.0.buf.as_mut()[self.0.pos] = word;
+            Ok(())
         }
     }
 }
@@ -1471,12 +1468,9 @@ impl<Word: Clone, Buf: SafeBuf<Word>> ReadWords<Word, Stack> for Cursor<Word, Bu
             Ok(None)
         } else {
             self.pos -= 1;
-            unsafe {
-                // SAFETY: We maintain the invariant `self.pos <= self.buf.as_ref().len()`
-                // and we just decreased `self.pos` (and made sure that didn't wrap around),
-                // so we now have `self.pos < self.buf.as_ref().len()`.
-                Ok(Some(self.buf.as_ref().get_unchecked(self.pos).clone()))
-            }
+            // We use a checked access here because the invariant `pos <= buf.len()` can be
+            // broken from safe code by shrinking the buffer through `Cursor::buf_mut`.
+            Ok(Some(self.buf.as_ref()[self.pos].clone()))
         }
     }
 
@@ -1514,7 +1508,7 @@ impl<Word: Clone, Buf: SafeBuf<Word>> BoundedReadWords<Word, Stack> for Cursor<W
 impl<Word: Clone, Buf: AsRef<[Word]>> BoundedReadWords<Word, Queue> for Cursor<Word, Buf> {
     #[inline(always)]
     fn remaining(&self) -> usize {
-        self.buf.as_ref().len() - self.pos
+        self.buf.as_ref().len().saturating_sub(self.pos)
     }
 }
 
